@@ -5,6 +5,7 @@ use crate::{
     compression::{compress, flags as compression_flags},
     crypto::{encrypt_block, hash_string, hash_type, het_hash, jenkins_hash},
     header::{FormatVersion, MpqHeaderV4Data},
+    path::plain_file_name,
     special_files::{AttributeFlags, Attributes, FileAttributes},
     tables::{BetHeader, BlockEntry, BlockTable, HashEntry, HashTable, HetHeader, HiBlockTable},
 };
@@ -1654,7 +1655,8 @@ impl ArchiveBuilder {
 
     /// Calculate file encryption key
     fn calculate_file_key(&self, filename: &str, file_pos: u64, file_size: u32, flags: u32) -> u32 {
-        let base_key = hash_string(filename, hash_type::FILE_KEY);
+        // The key is derived from the plain file name (without the directory part)
+        let base_key = hash_string(plain_file_name(filename), hash_type::FILE_KEY);
 
         if flags & BlockEntry::FLAG_FIX_KEY != 0 {
             // For FIX_KEY, use only the low 32 bits of the file position
